@@ -34,6 +34,16 @@ def main():
             for ed in m['edits']:
                 p = os.path.join(scratch, ed['file'])
                 s = open(p).read()
+                if 'nth' in ed:
+                    # the anchor occurs several times (sibling functions): edit the nth occurrence, `count` must match
+                    parts = s.split(ed['old'])
+                    if len(parts) - 1 != ed.get('count', len(parts) - 1) or ed['nth'] >= len(parts) - 1:
+                        print('SELFTEST %s: anchor text found %d times in %s (catalog out of date)' % (m['id'], len(parts) - 1, ed['file']))
+                        bad += 1
+                        break
+                    k = ed['nth']
+                    open(p, 'w').write(ed['old'].join(parts[:k + 1]) + ed['new'] + ed['old'].join(parts[k + 1:]))
+                    continue
                 if s.count(ed['old']) != 1:
                     print('SELFTEST %s: anchor text found %d times in %s (catalog out of date)' % (m['id'], s.count(ed['old']), ed['file']))
                     bad += 1
